@@ -40,6 +40,10 @@ Theorem C06_market_inv_step : forall now st o,
   MarketInv now st -> now <= op_epoch o -> wf_op o -> MarketInv (op_epoch o) (fst (step st o)).
 Proof. exact step_inv. Qed.
 
+Theorem C06_rejected_call_changes_nothing : forall st o st' c r,
+  step st o = (st', c :: r) -> c <> OK -> st' = st.
+Proof. exact step_rejected_unchanged. Qed.
+
 Theorem C06_locked_equals_obligations : forall now st a,
   MarketInv now st -> L st a = obligations st a.
 Proof. exact locked_equals_obligations. Qed.
